@@ -406,3 +406,31 @@ Example C10_json_parse_example :
   (* a truncated line is not an event *)
   parse (firstn 60 (enc_event e)) = PErr.
 Proof. vm_compute. repeat split; reflexivity. Qed.
+
+(* ---- 1'. which bytes can occur, completed: bytes from 0x80 on occur only inside well-formed UTF-8 — the text of
+   every string, and the whole line of every event, is valid UTF-8 whatever bytes the fields hold (invalid input bytes
+   having become the six ASCII bytes of the escape of U+FFFD). *)
+From AM Require Import Proofs.JsonUtf8Lemmas.
+Theorem C10_json_string_valid_utf8 : forall s : str, valid_utf8 (enc_string s) = true.
+Proof. exact enc_string_valid. Qed.
+Print Assumptions C10_json_string_valid_utf8.
+
+Theorem C10_json_line_valid_utf8 : forall e : jevent, event_utf8 e = true -> valid_utf8 (enc_line e) = true.
+Proof. exact enc_line_valid. Qed.
+Print Assumptions C10_json_line_valid_utf8.
+
+Theorem C10_json_login_view_utf8 : forall (aid t : str) (e : Model.SshdProc.event),
+  time_text_ok t = true -> event_utf8 (login_view aid t e) = true.
+Proof. exact login_view_utf8. Qed.
+Print Assumptions C10_json_login_view_utf8.
+
+Theorem C10_json_action_view_utf8 : forall (t : str) (a : Model.ToEvent.uaction),
+  time_text_ok t = true -> event_utf8 (action_view t a) = true.
+Proof. exact action_view_utf8. Qed.
+Print Assumptions C10_json_action_view_utf8.
+
+Example C10_json_utf8_example :
+  valid_utf8 (hx "78ffc0afeda080f4908080e282") = false /\
+  valid_utf8 (enc_string (hx "78ffc0afeda080f4908080e282")) = true /\
+  event_utf8 (login_view (hx "ff") (s2l "2023-04-05T06:07:08Z") C10_json_hostile_login) = true.
+Proof. vm_compute. repeat split; reflexivity. Qed.
